@@ -3,8 +3,8 @@
    Eups.version_match / version_match_prim and the sort-then-take-last selection of the
    latest version in python/eups/Eups.py  (C10).
 
-   The model follows the code with the repair of defect D7 applied
-   (proposed_fixes/C10-primaries-spelt-differently.diff): when the component loop over
+   The model follows the code with the repair of defect D7 applied (commit 4979e7d of /repo,
+   kept as proposed_fixes/C10-primaries-spelt-differently.diff): when the component loop over
    two differently spelt primaries finds no difference, the secondary and tertiary parts
    decide.  The first argument of std_compare_gen selects the repaired (true) or the
    pinned (false) behaviour; everything else is common to both.
